@@ -91,6 +91,10 @@ def normkey(k):
     return k
 
 
+STR_LIMIT = 1 << 16          # bounds: a path that builds a longer string, or runs one loop longer, is cut (counted, excluded from the claim)
+CONCRETE_LOOP_LIMIT = 20000
+
+
 class Interp:
     def __init__(self, forker=None, max_steps=3_000_000, loop_bound=None, call_depth=None, on_event=None):
         self.fk = forker
@@ -723,8 +727,11 @@ class Interp:
         ok = lambda x: is_str(x) or is_num(x)
         if ok(a) and ok(b):
             sa, sb = self.tostring(a), self.tostring(b)
-            if isinstance(sa, str) and isinstance(sb, str): return sa + sb
+            if isinstance(sa, str) and isinstance(sb, str):
+                if self.fk is not None and len(sa) + len(sb) > STR_LIMIT: raise Cut("string longer than %d characters" % STR_LIMIT)
+                return sa + sb
             r = SStr(([sa] if isinstance(sa, str) else sa.parts) + ([sb] if isinstance(sb, str) else sb.parts))
+            if len(r.parts) > 4096: raise Cut("string of more than 4096 pieces")
             return r
         h = self.metaof(a, "__concat")
         if h is None: h = self.metaof(b, "__concat")
@@ -983,6 +990,7 @@ class Interp:
                 if idx is None: raise
                 i = idx
     def _loopcheck(self, it, d0):
+        if self.fk is not None and it > CONCRETE_LOOP_LIMIT: raise Cut("more than %d iterations of one loop" % CONCRETE_LOOP_LIMIT)
         if self.loop_bound is not None and it > self.loop_bound and self.fk is not None and len(self.fk.decisions) > d0:
             raise Cut("loop bound %d" % self.loop_bound)
     def setindex_t(self, t, env): pass
